@@ -1,7 +1,7 @@
 ----------------------------- MODULE OrbRepRec -----------------------------
 (* code -> spec: records of calls of the real OrbitalRotator.  Matrices cross the boundary as exact numbers of
    Q(sqrt 3) (triples <<a, b, d>>; the harness rationalises the floating-point output and verifies the distance
-   < 1e-12, an unrepresentable entry is written as <<0, 0, 0>> and rejected here).  Residuals of the numeric laws are
+   < 1e-10, an unrepresentable entry is written as <<0, 0, 0>> and rejected here).  Residuals of the numeric laws are
    integers  bucket = ceil(log10(residual / 1e-16)) clipped to 0..16  (bucket <= 7  <=>  residual <= 1e-9). *)
 EXTENDS OrbRep, Json, IOUtils, TLCExt
 VARIABLE i
